@@ -27,6 +27,8 @@ impl<'a, T: IteTable<'a, BddPtr<'a>> + Default> BddBuilder<'a> for RobddBuilder<
             // TODO: Make this safe if possible
             let tbl = &mut *self.compute_table.as_ptr();
             if bdd.high.is_neg() || bdd.high.is_false() {
+                #[cfg(rsdd_verif)]
+                crate::verif::probe(crate::verif::Probe::BddGetOrInsertCompl);
                 let bdd: BddNode<'a> = BddNode::new(bdd.var, bdd.low.neg(), bdd.high.neg());
                 let r: &'a BddNode<'a> = tbl.get_or_insert(bdd);
                 BddPtr::Compl(r)
@@ -50,12 +52,20 @@ impl<'a, T: IteTable<'a, BddPtr<'a>> + Default> BddBuilder<'a> for RobddBuilder<
 
         let ite = Ite::new(o, f, g, h);
 
+        #[cfg(rsdd_verif)]
+        crate::verif::probe(match ite {
+            Ite::IteConst(_) => crate::verif::Probe::IteConst,
+            Ite::IteChoice { .. } => crate::verif::Probe::IteChoice,
+            Ite::IteComplChoice { .. } => crate::verif::Probe::IteComplChoice,
+        });
         if let Ite::IteConst(f) = ite {
             return f;
         }
 
         let hash = self.apply_table.borrow().hash(&ite);
         if let Some(v) = self.apply_table.borrow().get(ite, hash) {
+            #[cfg(rsdd_verif)]
+            crate::verif::probe(crate::verif::Probe::BddIteCacheHit);
             return v;
         }
 
@@ -72,8 +82,12 @@ impl<'a, T: IteTable<'a, BddPtr<'a>> + Default> BddBuilder<'a> for RobddBuilder<
         let f = self.ite(fxn, gxn, hxn);
 
         if t == f {
+            #[cfg(rsdd_verif)]
+            crate::verif::probe(crate::verif::Probe::BddIteReduce);
             return t;
         };
+        #[cfg(rsdd_verif)]
+        crate::verif::probe(crate::verif::Probe::BddIteNewNode);
 
         // now we have a new BDD
         let node = BddNode::new(lbl, f, t);
@@ -192,6 +206,14 @@ impl<'a, T: IteTable<'a, BddPtr<'a>> + Default> RobddBuilder<'a, T> {
                 }
 
                 // check cache
+                #[cfg(rsdd_verif)]
+                let memo_forget = crate::verif::buggify(crate::verif::Site::CondMemoForget);
+                #[cfg(rsdd_verif)]
+                if memo_forget {
+                    cache.remove(&bdd);
+                } else if cache.contains_key(&bdd) {
+                    crate::verif::probe(crate::verif::Probe::BddCondMemoHit);
+                }
                 match cache.get(&bdd) {
                     None => (),
                     Some(v) => return if bdd.is_neg() { v.neg() } else { *v },
@@ -202,6 +224,8 @@ impl<'a, T: IteTable<'a, BddPtr<'a>> + Default> RobddBuilder<'a, T> {
                 let h = self.cond_with_alloc(bdd.high_raw(), lbl, value, cache);
 
                 if l == h {
+                    #[cfg(rsdd_verif)]
+                    crate::verif::probe(crate::verif::Probe::BddCondReduce);
                     // reduce the BDD -- two children identical
                     if bdd.is_neg() {
                         return l.neg();
@@ -211,6 +235,8 @@ impl<'a, T: IteTable<'a, BddPtr<'a>> + Default> RobddBuilder<'a, T> {
                 };
                 let res = if l != bdd.low_raw() || h != bdd.high_raw() {
                     // cache and return the new BDD
+                    #[cfg(rsdd_verif)]
+                    crate::verif::probe(crate::verif::Probe::BddCondNewNode);
                     let new_bdd = BddNode::new(node.var, l, h);
                     let r = self.get_or_insert(new_bdd);
                     if bdd.is_neg() {
@@ -220,6 +246,8 @@ impl<'a, T: IteTable<'a, BddPtr<'a>> + Default> RobddBuilder<'a, T> {
                     }
                 } else {
                     // nothing changed
+                    #[cfg(rsdd_verif)]
+                    crate::verif::probe(crate::verif::Probe::BddCondUnchanged);
                     bdd
                 };
 
@@ -293,6 +321,12 @@ impl<'a, T: IteTable<'a, BddPtr<'a>> + Default> RobddBuilder<'a, T> {
     pub fn smooth(&'a self, bdd: BddPtr<'a>, num_vars: usize) -> BddPtr<'a> {
         // TODO: this num_vars should be tied to the specific BDD, not the manager
         self.smooth_helper(bdd, 0, num_vars)
+    }
+
+    /// every node currently stored in the unique table (verification hook)
+    #[cfg(rsdd_verif)]
+    pub fn verif_nodes(&self) -> Vec<&'a BddNode<'a>> {
+        self.compute_table.borrow().iter().collect()
     }
 
     pub fn stats(&'a self) -> BddBuilderStats {
